@@ -80,8 +80,13 @@ def states(tier):
     for np in (0, 1):
         for tz in ('UTC', 'VRF-3:30', 'ABC5DEF'):
             S.append(dict(base, newpgrp=np, tz=tz, setsid=0))
-    # (TZ changed by the caller between two conversions is NOT among the states: localtime_r() need not re-read TZ, and making the library
-    #  call tzset() on every exec trades the stale zone for a fork hazard - see DESIGN.md section 6.2, "a fix I made and withdrew")
+    # (b6b) the caller changes TZ after time conversions have taken place: the zone in force NOW, and the same instant (%s), are what the next record shows
+    # (these states were withdrawn in round 5 together with a tzset() call that created a fork hazard; since 062c916 the conversion runs under a guard
+    #  the fork handlers take, and the states are back - DESIGN.md section 6.2)
+    for tz in ('UTC', 'VRF-3:30'):
+        for tz2 in ('UTC', 'VRF-3:30', 'ABC5', 'XYZ-11'):
+            if tz != tz2:
+                S.append(dict(base, tz=tz, tz2=tz2))
     # (b7) $PWD naming the working directory exactly / by an alias / wrongly; evaluation in a forked child after a first evaluation in the parent
     for pw in ('exact', 'dotalias', 'symlink', 'other'):
         for c in ('d300', 'root'):
@@ -254,10 +259,12 @@ def check_state(st, out, pw, gr, version, strict_placeholders=False):
     expect('snoopy_version', version)
     expect('filename', '/bin/prog'); expect('cmdline', 'prog arg')
     if st.get('tz2'):
-        got = bytes.fromhex(out['datetime_z_after_tz_change']['v']).decode('latin-1')
+        got, _, gots = bytes.fromhex(out['datetime_z_after_tz_change']['v']).decode('latin-1').partition('|')
         want = {'UTC': '+0000', 'VRF-3:30': '+0330', 'ABC5': '-0500', 'XYZ-11': '+1100'}[st['tz2']]
         if got != want:
             bad.append(('datetime:%z', 'TZ was changed to %s after earlier conversions; offset reported %r, in force %r' % (st['tz2'], got, want)))
+        if not (gots.isdigit() and t0 - 1 <= int(gots) <= t1 + 2):
+            bad.append(('datetime:%s', 'TZ was changed to %s after earlier conversions; %%s reports %r, the clock says %d..%d (another instant)' % (st['tz2'], gots, t0, t1)))
     # evaluated again, in reverse order, after all the others: same answer (clock readings aside)
     for k, v2 in out.get('again', {}).items():
         name = bytes.fromhex(k).decode('latin-1')
